@@ -63,3 +63,25 @@ package redirect
 //@ ensures[director-with-the-given-validator-and-a-prefix-ending-in-a-slash] result != nil && typeis(result, "*appDirector")
 //@     && as(result, "*appDirector").validator == opts.Validator && HasSuffix(as(result, "*appDirector").proxyPrefix, "/")
 //@     && HasPrefix(as(result, "*appDirector").proxyPrefix, opts.ProxyPrefix)
+
+// ------------------------------------------------------------------ C06: where a candidate redirect is read from, and that it comes back byte for byte or not at all
+//@ func (*appDirector).getRdQuerystringRedirect
+//@ safety
+//@ nomod
+//@ prop C06
+//@ ensures[the-rd-parameter-validated-unchanged] result == ret(validateRedirect) && arg(validateRedirect, 1) == ret(Get) && arg(Get, 0) == req.Form
+//@     && arg(Get, 1) == "rd"
+
+//@ func (*appDirector).getXAuthRequestRedirect
+//@ safety
+//@ nomod
+//@ prop C06
+//@ ensures[the-redirect-header-validated-unchanged] result == ret(validateRedirect) && arg(validateRedirect, 1) == ret(Get) && arg(Get, 0) == req.Header
+//@     && arg(Get, 1) == "X-Auth-Request-Redirect"
+
+//@ func (*appDirector).getURIRedirect
+//@ nomod
+//@ prop C06 C16
+//@ ensures[the-requested-uri-unchanged-or-root] result == "/" || (ret(validateRedirect) != "" && result == ret(validateRedirect))
+//@     || (ret(validateRedirect) == "" && result == ret(RequestURI) && recv(RequestURI) == req.URL)
+//@ ensures[the-uri-the-request-utilities-report-is-what-gets-validated] arg(validateRedirect, 1) == ret(GetRequestURI) && arg(GetRequestURI, 0) == req
